@@ -645,6 +645,8 @@ func symIntrinsic(name string) nativeFn {
 			}
 			return args[0]
 		}
+	case "verifNative":
+		return func(fr *frame, args []value) value { return false }
 	case "verifUnwind":
 		return func(fr *frame, args []value) value { fr.i.R.Unwind = int(asInt64(args[0])); return nil }
 	}
